@@ -56,7 +56,91 @@ fn result_vals() -> Vec<R> {
 
 fn emit(comb: &str, inp: Value, k: Value, out: Value) {
     let calls: Vec<i64> = CALLS.with(|c| std::mem::take(&mut *c.borrow_mut()));
-    trace::rec(json!({"ev":"pc","comb":comb,"inp":inp,"k":k,"out":out,"calls":calls}));
+    trace::rec(json!({"ev":"pc","shape":"data","comb":comb,"inp":inp,"k":k,"out":out,"calls":calls}));
+}
+fn emit_z(comb: &str, inp: Value, k: Value, out: Value) {
+    let calls: Vec<i64> = CALLS.with(|c| std::mem::take(&mut *c.borrow_mut()));
+    trace::rec(json!({"ev":"pc","shape":"zst","comb":comb,"inp":inp,"k":k,"out":out,"calls":calls}));
+}
+
+// ---- the same combinators instantiated with a zero-sized value type and zero-sized callables (fn items): the
+// ---- combinators are parametric, so nothing may depend on the size of T or of the closure
+#[derive(Debug, Clone, Copy, PartialEq)]
+struct U;
+type PZ = Parsed<U, i64>;
+type RZ = Result<U, i64>;
+thread_local! {
+    /// what the zero-sized callables return: 0 fallthrough, 1 ok, 7 / 8 errors
+    static K: std::cell::Cell<i64> = const { std::cell::Cell::new(0) };
+}
+fn kp() -> PZ {
+    match K.with(|k| k.get()) { 0 => Fallthrough, 1 => Res(Ok(U)), e => Res(Err(e)) }
+}
+fn kr() -> RZ {
+    match K.with(|k| k.get()) { 1 => Ok(U), e => Err(e) }
+}
+fn alt_give_up() -> i64 { called(0); K.with(|k| k.get()) }
+fn alt_parse() -> PZ { called(0); kp() }
+fn alt_always() -> RZ { called(0); kr() }
+fn cont_then(_: U) -> RZ { called(1); kr() }
+fn cont_also(_: &mut U) -> Result<(), i64> { called(1); match K.with(|k| k.get()) { 1 => Ok(()), e => Err(e) } }
+fn cont_do(_: &mut U) { called(1); }
+fn cont_map(_: U) -> U { called(1); U }
+fn cont_map_err(e: i64) -> i64 { called(e); e + 100 }
+fn pzj(p: &PZ) -> Value {
+    match p { Fallthrough => json!(["ft", 0]), Res(Ok(U)) => json!(["ok", 1]), Res(Err(e)) => json!(["err", e]) }
+}
+fn rzj(r: &RZ) -> Value {
+    match r { Ok(U) => json!(["ok", 1]), Err(e) => json!(["err", e]) }
+}
+fn kpj(k: i64) -> Value { match k { 0 => json!(["ft", 0]), 1 => json!(["ok", 1]), e => json!(["err", e]) } }
+fn kuj(k: i64) -> Value { match k { 1 => json!(["ok", 0]), e => json!(["err", e]) } }
+
+fn zst_cases() {
+    let nok = json!(["nok", 0]);
+    let vals: Vec<PZ> = vec![Fallthrough, Res(Ok(U)), Res(Err(7)), Res(Err(8))];
+    for p in vals {
+        for e in [7i64, 8] {
+            K.with(|k| k.set(e));
+            let o: RZ = p.or_give_up(alt_give_up);
+            emit_z("or_give_up", pzj(&p), json!(["err", e]), rzj(&o));
+        }
+        for k in [0i64, 1, 7, 8] {
+            K.with(|c| c.set(k));
+            let o = p.or_parse(alt_parse);
+            emit_z("or_parse", pzj(&p), kpj(k), pzj(&o));
+        }
+        for k in [1i64, 7, 8] {
+            K.with(|c| c.set(k));
+            let o = p.or_always_parse(alt_always);
+            emit_z("or_always_parse", pzj(&p), kpj(k), rzj(&o));
+            let o = p.and_then(cont_then);
+            emit_z("and_then", pzj(&p), kpj(k), pzj(&o));
+            let o = p.and_also(cont_also);
+            emit_z("and_also", pzj(&p), kuj(k), pzj(&o));
+        }
+        let o = p.and_do(cont_do);
+        emit_z("and_do", pzj(&p), nok.clone(), pzj(&o));
+        let o = p.map(cont_map);
+        emit_z("map", pzj(&p), nok.clone(), pzj(&o));
+        let o = p.map_err(cont_map_err);
+        emit_z("map_err", pzj(&p), nok.clone(), pzj(&o));
+        let o = p.optional();
+        emit_z("optional", pzj(&p), nok.clone(), match o { Ok(Some(U)) => json!(["some", 1]), Ok(None) => json!(["none", 0]), Err(e) => json!(["err", e]) });
+        let o = p.matches();
+        emit_z("matches", pzj(&p), nok.clone(), match o { Ok(b) => json!(["bool", b as i64]), Err(e) => json!(["err", e]) });
+    }
+    for r in [Ok(U), Err(7i64), Err(8)] {
+        for k in [1i64, 7, 8] {
+            K.with(|c| c.set(k));
+            let o = ResultExt::and_also(r, cont_also);
+            emit_z("r_and_also", rzj(&r), kuj(k), rzj(&o));
+        }
+        let o = ResultExt::and_do(r, cont_do);
+        emit_z("r_and_do", rzj(&r), nok.clone(), rzj(&o));
+        let o: PZ = r.into();
+        emit_z("from_result", rzj(&r), nok.clone(), pzj(&o));
+    }
 }
 
 pub fn run(opts: &HashMap<String, String>) -> i32 {
@@ -160,6 +244,7 @@ pub fn run(opts: &HashMap<String, String>) -> i32 {
         });
         emit("r_and_do", rj(&r), nok.clone(), rj(&o));
     }
+    zst_cases();
     let n = trace::close();
     println!("{{\"cases\":{}}}", n - 1);
     0
